@@ -183,6 +183,12 @@ package decoder
 //@   ensures cacheShape() && slotsOwned()
 //@   assigns global typeAddr, global cachedDecoder
 
+//@ spec shapeTA(t) := (t.AddrShift == 0 || t.AddrShift == 5 || t.AddrShift == 6) && (t.AddrRange >> t.AddrShift) <= 2097152 && (t.AddrRange == t.MaxTypeAddr - t.BaseTypeAddr || t.BaseTypeAddr > t.MaxTypeAddr)
+//@ func initDecoder$1()
+//@   props C14 C06
+//@   ensures cacheShape() && forall i :: 0 <= i && i < len(cachedDecoder) ==> cachedDecoder[i] == nil
+//@   assigns global typeAddr, global cachedDecoder, TypeAddr.BaseTypeAddr
+
 //@ func compileHead(typ, structTypeToDecoder) (dec, err)
 //@   props C14
 //@   trusted reflection-driven decoder compiler; assumed to return the decoder for exactly the requested type
@@ -197,9 +203,14 @@ package decoder
 
 //@ func CompileToGetDecoder(typ) (dec, err)
 //@   props C14 C06
+//@   alsotags race
 //@   requires typeAddr != nil ==> slotsOwned()
 // ENV-types: a type address inside the window lies on the grid AnalyzeTypeAddr inferred
 //@   postassume initDecoder: onFastPath(typ) ==> gridded(typ)
 //@   ensures err == nil ==> dec != nil && owner(dataOf(dec)) == typ
 //@   ensures slotsOwned()
 //@   assigns global typeAddr, global cachedDecoder, class T:decoder.Decoder.typ, class T:decoder.Decoder.data
+
+// the sync.Once argument of the trusted initDecoder contract rests on these being the only writers
+//@ writers[C14] typeAddr: initDecoder$1
+//@ writers[C14] cachedDecoder: initDecoder$1, CompileToGetDecoder
